@@ -16,6 +16,8 @@ import (
 	"time"
 
 	"storj.io/drpc"
+	"storj.io/drpc/drpcconn"
+	"storj.io/drpc/drpcerr"
 	"storj.io/drpc/drpcmetadata"
 	"storj.io/drpc/drpcstream"
 	"storj.io/drpc/drpcwire"
@@ -114,7 +116,14 @@ func (e *compatEngine) emitted(raw []byte, r *wRec) {
 	if r.Mode == "emitnew" {
 		w := drpcwire.NewWriter(&wire, wsize)
 		for i, f := range r.Frames {
-			if err := w.WriteFrame(drpcwire.Frame{Data: cc.payloads[i], ID: ids.id(f.Sid, f.Mid), Kind: drpcwire.Kind(f.Kind), Done: f.Done, Control: f.Control}); err != nil {
+			fr := drpcwire.Frame{Data: cc.payloads[i], ID: ids.id(f.Sid, f.Mid), Kind: drpcwire.Kind(f.Kind), Done: f.Done, Control: f.Control}
+			var err error
+			if f.Done && hv%2 == 0 && (i == 0 || r.Frames[i-1].Done || r.Frames[i-1].Sid != f.Sid || r.Frames[i-1].Mid != f.Mid) {
+				err = w.WritePacket(drpcwire.Packet{Data: fr.Data, ID: fr.ID, Kind: fr.Kind, Control: fr.Control})
+			} else {
+				err = w.WriteFrame(fr)
+			}
+			if err != nil {
 				e.c.Inconclusive("writer: %v", err)
 				return
 			}
@@ -864,6 +873,167 @@ func observeHandle(hk *wHK, dataClass string) (*wOutcome, string) {
 }
 
 // ---------------------------------------------------------------------------
+// the wire vocabulary: which packet each operation sends
+// ---------------------------------------------------------------------------
+
+// capTransport records writes; reads block until it is closed.
+type capTransport struct {
+	mu     sync.Mutex
+	buf    bytes.Buffer
+	closed chan struct{}
+	once   sync.Once
+}
+
+func (t *capTransport) Write(p []byte) (int, error) {
+	t.mu.Lock()
+	defer t.mu.Unlock()
+	t.buf.Write(p)
+	return len(p), nil
+}
+func (t *capTransport) Read(p []byte) (int, error) { <-t.closed; return 0, io.EOF }
+func (t *capTransport) Close() error               { t.once.Do(func() { close(t.closed) }); return nil }
+func (t *capTransport) frames() []drpcwire.Frame {
+	t.mu.Lock()
+	b := append([]byte(nil), t.buf.Bytes()...)
+	t.mu.Unlock()
+	var out []drpcwire.Frame
+	for len(b) > 0 {
+		rem, fr, ok, err := drpcwire.ParseFrame(b)
+		if !ok || err != nil {
+			break
+		}
+		out = append(out, fr)
+		b = rem
+	}
+	return out
+}
+
+// invokeFrames runs a real drpcconn.Conn.Invoke with metadata against a silent peer and
+// returns the frames it wrote (metadata, invoke, message, closesend).
+func invokeFrames(md map[string]string, rpc string) ([]drpcwire.Frame, string) {
+	tr := &capTransport{closed: make(chan struct{})}
+	conn := drpcconn.New(tr)
+	ctx, cancel := context.WithCancel(drpcmetadata.AddPairs(context.Background(), md))
+	done := make(chan struct{})
+	go func() {
+		defer close(done)
+		in, out := []byte("request"), []byte(nil)
+		_ = conn.Invoke(ctx, rpc, rawEnc{}, &in, &out)
+	}()
+	deadline := time.Now().Add(60 * time.Second)
+	for len(tr.frames()) < 4 && time.Now().Before(deadline) {
+		time.Sleep(time.Millisecond)
+	}
+	fs := tr.frames()
+	cancel()
+	_ = conn.Close()
+	select {
+	case <-done:
+	case <-time.After(60 * time.Second):
+		return fs, "Invoke did not return after cancel and Close\n" + censusText()
+	}
+	if len(fs) < 4 {
+		return fs, fmt.Sprintf("only %d frames written by Invoke within 60s", len(fs))
+	}
+	return fs, ""
+}
+
+func (e *compatEngine) ops(raw []byte, r *wRec) {
+	o := r.OpW
+	if o == nil {
+		e.c.Inconclusive("ops record without body")
+		return
+	}
+	e.c.Eval(recHash(raw))
+	// the vocabulary of the specification must be the released one
+	oldKinds := map[string]oldwire.Kind{"invoke": oldwire.KindInvoke, "message": oldwire.KindMessage, "error": oldwire.KindError,
+		"close": oldwire.KindClose, "closesend": oldwire.KindCloseSend, "metadata": oldwire.KindInvokeMetadata}
+	if k, ok := oldKinds[o.Op]; ok && int(k) != o.Wire.Kind {
+		e.c.Inconclusive("Wire.tla OpWire[%s].kind = %d but v0.0.17 uses %d", o.Op, o.Wire.Kind, k)
+		return
+	}
+	var fr drpcwire.Frame
+	md := map[string]string{"trace-id": "abc", "ключ": "значение"}
+	const rpc = "/service/Method"
+	switch o.Op {
+	case "metadata", "invoke", "message":
+		fs, note := invokeFrames(md, rpc)
+		if note != "" {
+			e.c.Inconclusive("ops %s: %s", o.Op, note)
+			return
+		}
+		fr = fs[map[string]int{"metadata": 0, "invoke": 1, "message": 2}[o.Op]]
+		switch o.Op {
+		case "metadata":
+			got, err := oldmd.Decode(fr.Data)
+			if err != nil || !sameMap(got, md) {
+				e.violate("Invoke: the metadata packet is not decoded to the same map by v0.0.17", raw, map[string]any{"error": fmt.Sprint(err)})
+				return
+			}
+		case "invoke":
+			if string(fr.Data) != rpc {
+				e.violate("Invoke: the invoke packet does not carry the rpc name", raw, map[string]any{"body": string(fr.Data)})
+				return
+			}
+		case "message":
+			if string(fr.Data) != "request" {
+				e.violate("Invoke: the message packet does not carry the request", raw, map[string]any{"body": string(fr.Data)})
+				return
+			}
+		}
+		if o.Op == "message" { // the unary call half-closes after its request
+			if last := fs[3]; int(last.Kind) != int(oldwire.KindCloseSend) || last.Control || len(last.Data) != 0 || !last.Done {
+				e.violate(fmt.Sprintf("Invoke: fourth packet is not CloseSend as v0.0.17 knows it: kind=%d control=%v", last.Kind, last.Control), raw, map[string]any{})
+				return
+			}
+		}
+	default:
+		var out bytes.Buffer
+		st := drpcstream.New(context.Background(), 3, drpcwire.NewWriter(&out, 0))
+		_ = st.RawWrite(drpcwire.KindInvoke, []byte(rpc))
+		_ = st.RawFlush()
+		out.Reset()
+		sent := drpcerr.WithCode(errors.New("handler failed"), 77)
+		switch o.Op {
+		case "error":
+			_ = st.SendError(sent)
+		case "close":
+			_ = st.Close()
+		case "closesend":
+			_ = st.CloseSend()
+		case "softcancel":
+			_, _ = st.SendCancel(context.Canceled)
+		default:
+			e.c.Inconclusive("unknown op %q", o.Op)
+			return
+		}
+		rem, f, ok, err := drpcwire.ParseFrame(out.Bytes())
+		if !ok || err != nil || len(rem) != 0 {
+			e.violate(fmt.Sprintf("stream op %s does not put exactly one frame on the wire", o.Op), raw, map[string]any{"bytes": out.Len()})
+			return
+		}
+		fr = f
+		if o.Op == "error" {
+			got := oldwire.UnmarshalError(fr.Data)
+			if got == nil || !strings.Contains(got.Error(), "handler failed") || drpcerr.Code(got) != 77 {
+				e.violate("SendError: the error packet is not decoded to the same message and code by v0.0.17", raw, map[string]any{"decoded": fmt.Sprint(got)})
+				return
+			}
+		}
+		if !st.IsTerminated() {
+			st.Cancel(context.Canceled)
+		}
+	}
+	if int(fr.Kind) != o.Wire.Kind || fr.Control != o.Wire.Control || !fr.Done || (o.Wire.Body == "empty" && len(fr.Data) != 0) {
+		e.violate(fmt.Sprintf("operation %s sends kind=%d control=%v; the vocabulary shared with released peers (Wire.tla OpWire) demands kind=%d control=%v", o.Op, fr.Kind, fr.Control, o.Wire.Kind, o.Wire.Control), raw, map[string]any{"body_len": len(fr.Data)})
+		return
+	}
+	atomic.AddInt64(&e.runs, 1)
+	e.c.EvalN(1)
+	e.c.TraceValidated(1)
+}
+
+// ---------------------------------------------------------------------------
 // C18
 // ---------------------------------------------------------------------------
 
@@ -923,8 +1093,14 @@ func C18(c *vf.Ctx) {
 		wc.plain["EmitMulti"] = strings.ToUpper(fmt.Sprint(ec.multi))
 		wc.plain["EmitStreams"] = strings.ToUpper(fmt.Sprint(ec.streams))
 		wireRun(c, ec.label, wc, 16, e.emitted)
+		if fastFail(c) {
+			return
+		}
 	}
 	e.live()
+	if fastFail(c) {
+		return
+	}
 	wc := wireBase("meta")
 	wc.defs["MetaClasses"] = `{"empty","a","s127","s128","s16384","utf8","bin"}`
 	wc.defs["MetaMany"] = "{0,100}"
@@ -934,6 +1110,8 @@ func C18(c *vf.Ctx) {
 	wireRun(c, "metadata maps", wc, 8, e.meta)
 	wc = wireBase("kinds")
 	wireRun(c, "HandlePacket kinds", wc, 8, e.kinds)
+	wc = wireBase("ops")
+	wireRun(c, "wire vocabulary of the stream operations", wc, 2, e.ops)
 	c.Cov["records_replayed"] = atomic.LoadInt64(&e.records)
 	c.Cov["reader_and_codec_runs"] = atomic.LoadInt64(&e.runs)
 	if n := e.lim.counts(); len(n) > 0 {
